@@ -1014,6 +1014,11 @@ class HeapBody:
                     if r and r[0] in MODULE_NAMES:
                         continue
                     self.mutate_receiver(n.func.value, out)
+            if isinstance(n, ast.Call):
+                # numpy's out=...: the result is written into that array
+                for k in n.keywords:
+                    if k.arg == "out" and not (isinstance(k.value, ast.Constant) and k.value.value is None):
+                        self.mutate_receiver(k.value, out)
             if isinstance(n, (ast.NamedExpr,)):
                 raise Shape("walrus")
 
